@@ -122,3 +122,6 @@ pub uninterp spec fn cow_str_view<'a>(c: Cow<'a, str>) -> Seq<char>;
 pub uninterp spec fn default_raw() -> Box<RawValue>;
 #[verifier::external_body]
 pub fn raw_or_default(o: Option<Box<RawValue>>) -> (r: Box<RawValue>) ensures r == (match o { Some(b) => b, None => default_raw() }) { unimplemented!() }
+// `String::len`: the length in bytes of the UTF-8 encoding (std; vstd specifies `str::len` but not `String::len`)
+pub assume_specification [String::len] (s: &String) -> (r: usize)
+    ensures r as int == vstd::utf8::encode_utf8(s@).len();
